@@ -156,7 +156,7 @@ def _get_last_line(node_or_leaf):
         return last_leaf.start_pos[0]
     else:
         n = last_leaf.get_next_leaf()
-        if n.type == 'endmarker' and '\n' in n.prefix:
+        if n.type == 'endmarker' and ('\n' in n.prefix or '\r' in n.prefix):
             # This is a very special case and has to do with error recovery in
             # Parso. The problem is basically that there's no newline leaf at
             # the end sometimes (it's required in the grammar, but not needed
